@@ -50,6 +50,7 @@ type summary struct {
 	Yields          int      `json:"yields"`
 	MapRanges       int      `json:"map_ranges"`
 	Locks           int      `json:"locks"`
+	Pools           int      `json:"pool_ops"`
 	ClockReads      int      `json:"clock_reads"`
 	GoStmts         int      `json:"go_stmts"`
 	UncontrolledMap []string `json:"uncontrolled_map_ranges"`
@@ -508,8 +509,8 @@ func (c *fileCtx) mutexPath(sel *ast.SelectorExpr) (expr string, isPtr bool, kin
 		return
 	}
 	kind = named.Obj().Name()
-	if kind != "Mutex" && kind != "RWMutex" {
-		if kind == "Cond" || kind == "WaitGroup" || kind == "Once" || kind == "Map" || kind == "Pool" {
+	if kind != "Mutex" && kind != "RWMutex" && kind != "Pool" {
+		if kind == "Cond" || kind == "WaitGroup" || kind == "Once" || kind == "Map" {
 			c.unmodelled(sel.Pos(), "sync."+kind+"."+sel.Sel.Name)
 		}
 		return "", false, "", false
@@ -584,17 +585,34 @@ func (c *fileCtx) call(n *ast.CallExpr) {
 		fn = "RLock"
 	case "RWMutex.RUnlock":
 		fn = "RUnlock"
+	case "Pool.Get":
+		fn = "PoolGet"
+	case "Pool.Put":
+		fn = "PoolPut"
 	default:
-		return
-	}
-	if len(n.Args) != 0 {
 		return
 	}
 	arg := "&" + expr
 	if isPtr {
 		arg = expr
 	}
+	if fn == "PoolPut" {
+		if len(n.Args) != 1 {
+			return
+		}
+		// Replace only the callee part: x.Put(  ->  __simrt.PoolPut(&x,
+		c.edits = append(c.edits, edit{c.off(n.Pos()), c.off(n.Lparen) + 1, fmt.Sprintf("__simrt.PoolPut(%s, ", arg)})
+		sum.Pools++
+		return
+	}
+	if len(n.Args) != 0 {
+		return
+	}
 	c.edits = append(c.edits, edit{c.off(n.Pos()), c.off(n.End()), fmt.Sprintf("__simrt.%s(%s)", fn, arg)})
+	if fn == "PoolGet" {
+		sum.Pools++
+		return
+	}
 	sum.Locks++
 }
 
